@@ -679,8 +679,12 @@ func (f *frame) step(in ssa.Instruction, st State, reach string) (State, bool) {
 		t := deref(x.Type())
 		l := locOfRef(r, t)
 		st.heap = c.store(st.heap, l, c.zeroVal(t))
-		if !allocEscapes(x, 0) {
-			f.privAllocs = append(f.privAllocs, privAlloc{v: x, loc: l})
+		{
+			var esc []ssa.Instruction
+			unknown := collectEscapes(x, 0, &esc)
+			if !unknown {
+				f.privAllocs = append(f.privAllocs, privAlloc{v: x, loc: l, escapes: esc})
+			}
 		}
 		return st, false
 	case *ssa.FieldAddr:
@@ -964,8 +968,66 @@ func (c *Ctx) assumeSealed(v Val, t types.Type, cond string) {
 }
 
 type privAlloc struct {
-	v   *ssa.Alloc
-	loc *Loc
+	v       *ssa.Alloc
+	loc     *Loc
+	escapes []ssa.Instruction // instructions at which the address is handed out
+}
+
+// collectEscapes gathers the instructions through which the address of a local variable becomes
+// known outside the function body. Returns true when the uses cannot be classified.
+func collectEscapes(v ssa.Value, depth int, out *[]ssa.Instruction) bool {
+	if depth > 6 {
+		return true
+	}
+	refs := v.Referrers()
+	if refs == nil {
+		return true
+	}
+	for _, r := range *refs {
+		switch x := r.(type) {
+		case *ssa.UnOp, *ssa.DebugRef:
+		case *ssa.Store:
+			if x.Val == v {
+				*out = append(*out, x)
+			}
+		case *ssa.FieldAddr:
+			if collectEscapes(x, depth+1, out) {
+				return true
+			}
+		case *ssa.IndexAddr:
+			if collectEscapes(x, depth+1, out) {
+				return true
+			}
+		case *ssa.MakeClosure:
+			crefs := x.Referrers()
+			if crefs == nil {
+				return true
+			}
+			onlyDeferred := true
+			for _, cr := range *crefs {
+				if d, ok := cr.(*ssa.Defer); !ok || d.Call.Value != ssa.Value(x) {
+					onlyDeferred = false
+				}
+			}
+			if !onlyDeferred {
+				*out = append(*out, x)
+			}
+		case ssa.Instruction:
+			*out = append(*out, x)
+		default:
+			return true
+		}
+	}
+	return false
+}
+
+func instrIndex(in ssa.Instruction) int {
+	for i, x := range in.Block().Instrs {
+		if x == in {
+			return i
+		}
+	}
+	return -1
 }
 
 // allocEscapes: may the address of this local variable be known to code outside the current
@@ -1015,9 +1077,37 @@ func allocEscapes(v ssa.Value, depth int) bool {
 
 // restoreLocals: after a call whose effect is an array-level havoc, the private local variables
 // of the current function (addresses never handed out) keep their contents.
-func (f *frame) restoreLocals(old, nh *Heap) *Heap {
+func (f *frame) restoreLocals(old, nh *Heap, site ssa.Instruction) *Heap {
 	c := f.c
 	for _, pa := range f.privAllocs {
+		// the address must not have been handed out before this call: every escaping use is
+		// strictly dominated by the call site, and the call site is not inside a loop
+		private := true
+		if len(pa.escapes) > 0 {
+			if site == nil || f.inLoop(site.Block()) {
+				private = false
+			} else {
+				si := instrIndex(site)
+				for _, e := range pa.escapes {
+					if e == site {
+						private = false // passed to this very call
+						break
+					}
+					if e.Block() == site.Block() {
+						if instrIndex(e) <= si {
+							private = false
+							break
+						}
+					} else if !site.Block().Dominates(e.Block()) {
+						private = false
+						break
+					}
+				}
+			}
+		}
+		if !private {
+			continue
+		}
 		for _, acc := range pa.loc.accs {
 			ms := memSort(acc.leaf.Sort, len(acc.idx))
 			if c.heapGet(old, acc.mem, ms) == c.heapGet(nh, acc.mem, ms) {
